@@ -207,9 +207,12 @@ CONFIGS = {
 class BuildError(Exception):
     def __init__(self, msg, log): super().__init__(msg); self.log = log
 
-def cxx_build(name, sources, config='gcc20-ubsan', extra=(), gen=None):
+def cxx_build(name, sources, config='gcc20-ubsan', extra=(), gen=None, tolerant=True):
     """compile `sources` (list of (filename, text) generated TUs, or paths) against /repo/include into
-    <cache>/<name>-<config>-<key>/exe; TUs compiled in parallel. Returns (exe, seconds, cached)."""
+    <cache>/<name>-<config>-<key>/exe; TUs compiled in parallel. Returns (exe, seconds, cached).
+    tolerant: when a generated TU of registration lines does not compile, the registrations that do not compile are
+    dropped (recorded in <dir>/dropped.json, see `dropped_of`) and the server is built from the rest; the server then
+    answers `no-inst` for the dropped instantiations.  Callers report the dropped registrations as a broken correspondence."""
     comp, flags = CONFIGS[config]
     key = hashlib.sha256()
     srcs = []
@@ -229,12 +232,43 @@ def cxx_build(name, sources, config='gcc20-ubsan', extra=(), gen=None):
             fn, text = ft; p = os.path.join(d, fn); open(p, 'w').write(text); o = p + '.o'
             r = run(base + ['-c', p, '-o', o])
             return fn, o, r
+        failed = []
         with concurrent.futures.ThreadPoolExecutor(JOBS) as ex:
             for fn, o, r in ex.map(one, srcs):
-                if r.returncode != 0:
-                    shutil.rmtree(d, ignore_errors=True)
-                    raise BuildError('compile of %s failed (%s)' % (fn, config), r.stderr if len(r.stderr) < 14000 else r.stderr[:9000] + '\n[...]\n' + r.stderr[-4000:])
+                if r.returncode != 0: failed.append((fn, r)); continue
                 objs.append(o)
+        dropped = []
+        if failed:
+            # Some instantiations do not compile.  To keep searching for a failing input, rebuild the failing TUs with
+            # one registration line per file and drop exactly the lines that do not compile (the caller reports them).
+            fn0, r0 = failed[0]
+            first_log = r0.stderr if len(r0.stderr) < 14000 else r0.stderr[:9000] + '\n[...]\n' + r0.stderr[-4000:]
+            pieces = []; splittable = tolerant
+            for fn, r in failed:
+                text = dict(srcs)[fn]; m = re.search(r'^void (reg_\w+)\(\) \{\n(.*?)\n\}\n', text, re.S | re.M)
+                if not m or not all(l.startswith('  reg') for l in m.group(2).split('\n') if l.strip()): splittable = False; break
+                head = text[:m.start()]; fname = m.group(1); body = [l for l in m.group(2).split('\n') if l.strip()]
+                pieces.append((fn, head, fname, body))
+            if not splittable:
+                shutil.rmtree(d, ignore_errors=True)
+                raise BuildError('compile of %s failed (%s)' % (fn0, config), first_log)
+            jobs = []
+            for fn, head, fname, body in pieces:
+                for k, l in enumerate(body): jobs.append(('%s_p%d.cpp' % (fn[:-4], k), '%svoid %s_p%d() {\n%s\n}\n' % (head, fname, k, l), fn, fname, k, l))
+            with concurrent.futures.ThreadPoolExecutor(JOBS) as ex:
+                res = list(ex.map(lambda j: one((j[0], j[1])), jobs))
+            okparts = {}
+            for j, (fnp, o, r) in zip(jobs, res):
+                if r.returncode == 0: objs.append(o); okparts.setdefault(j[3], []).append(j[4])
+                else: dropped.append(dict(registration=j[5].strip(), error=[x for x in r.stderr.split('\n') if 'error' in x][:3]))
+            for fn, head, fname, body in pieces:
+                ks = okparts.get(fname, [])
+                glue = ''.join('void %s_p%d();\n' % (fname, k) for k in ks) + 'void %s() {\n%s}\n' % (fname, ''.join('  %s_p%d();\n' % (fname, k) for k in ks))
+                fng, o, r = one((fn[:-4] + '_glue.cpp', glue))
+                if r.returncode != 0:
+                    shutil.rmtree(d, ignore_errors=True); raise BuildError('compile of %s failed (%s)' % (fn0, config), first_log)
+                objs.append(o)
+            json.dump(dict(dropped=dropped, first_log=first_log[-6000:]), open(os.path.join(d, 'dropped.json'), 'w'))
         link_flags = [f for f in flags if f.startswith('-fsanitize') or f.startswith('-std')]
         r = run([comp] + link_flags + objs + ['-o', exe + '.tmp', '-lpthread'])
         if r.returncode != 0:
@@ -245,6 +279,19 @@ def cxx_build(name, sources, config='gcc20-ubsan', extra=(), gen=None):
             try: os.remove(o)
             except OSError: pass
         return exe, time.time() - t0, False
+
+def dropped_of(exe):
+    """registrations that did not compile when `exe` was built (empty list for a complete build)"""
+    p = os.path.join(os.path.dirname(exe), 'dropped.json')
+    return json.load(open(p)) if os.path.exists(p) else None
+
+def report_dropped(rep, exe, what, cfg):
+    """standard report of a partially built op server; returns True when instantiations were dropped"""
+    dj = dropped_of(exe)
+    if not dj: return False
+    rep.broke(dict(correspondence='%s build (%s): %d instantiation(s) do not compile against the current tree' % (what, cfg, len(dj['dropped'])),
+                   dropped=dj['dropped'][:12], log=dj['first_log'][-3000:]))
+    return True
 
 def pipe(exe, lines, timeout=1800, env=None):
     if not lines: return []
